@@ -6,6 +6,8 @@ windows), the roll-off resampling contract, srs.srs_frf and srs.vrs against refs
 import itertools
 import math
 
+import re
+
 import numpy as np
 from hypothesis import strategies as st
 
@@ -37,7 +39,14 @@ ASSUME = ["scipy.linalg.expm on the 4x4 non-dimensional augmented matrix (cross-
           "are taken from srs.fftroll / lanroll / preroll called directly",
           "where the order of ic-shift and roll-off is not documented both orders are accepted",
           "vrs integration step on non-uniform grids is not documented: only bracketed there"]
-KNOWN = {}
+def KNOWN_F26(case, kind, detail):
+    """srs.linroll (rolloff='linear') with an up-sampling factor >= 3: N*factor - 1 samples instead of
+    (N-1)*factor + 1 (fixing it changes numbers pinned by pyyeti's own tests, so it is recorded, not repaired)"""
+    m = re.search(r"factor=(\d+)", detail)
+    return kind == "linroll_not_linear_interpolation" and m is not None and int(m.group(1)) >= 3
+
+
+KNOWN = {"F26": KNOWN_F26}
 
 EPS = 2.0 ** -52
 STYPES, ICS, PEAKS, TIMES = sx.STYPES, sx.ICS, sx.PEAKS, sx.TIMES
